@@ -17,15 +17,21 @@ class Other:
     def __repr__(self):
         return f"Other({self.tag})"
 
+    __str__ = __repr__
+
 
 def fbits(x: float) -> int:
     return struct.unpack("<Q", struct.pack("<d", float(x)))[0]
 
 
 def dt_ns(d) -> int:
+    """Resolution-independent token of a timestamp: nanoseconds since the epoch."""
     import pandas as pd
 
-    return int(pd.Timestamp(d).value)
+    t = pd.Timestamp(d)
+    if t.tzinfo is not None:
+        t = t.tz_convert(None)
+    return int(t.as_unit("us").value) * 1000 + int(t.nanosecond)
 
 
 def to_py(c):
@@ -53,8 +59,41 @@ def to_py(c):
     raise ValueError(c)
 
 
+def from_py(x):
+    """python object -> JSON cell (inverse of to_py, for values the implementation hands back)."""
+    import math
+
+    import pandas as pd
+
+    if x is None or isinstance(x, str):
+        return x
+    if x is pd.NaT:
+        return {"nat": 1}
+    if isinstance(x, bool):
+        return {"b": x}
+    if isinstance(x, int):
+        return {"i": x}
+    if isinstance(x, float):
+        return {"f": "nan" if math.isnan(x) else ("inf" if x == math.inf else ("-inf" if x == -math.inf else x.hex()))}
+    if isinstance(x, pd.Timestamp):
+        return {"ts": x.isoformat()}
+    if isinstance(x, datetime.datetime):
+        return {"d": x.isoformat()}
+    if isinstance(x, datetime.date):
+        return {"o": "date"}
+    if isinstance(x, Other):
+        return {"o": x.tag}
+    return {"o": type(x).__name__}
+
+
 def rows_to_py(rows):
     return [[to_py(c) for c in r] for r in rows]
+
+
+def canon_fbits(x: float) -> int:
+    import math
+
+    return 0x7FF8000000000000 if math.isnan(x) else fbits(x)
 
 
 def to_coq(c) -> str:
@@ -62,18 +101,19 @@ def to_coq(c) -> str:
         return "CNone"
     if isinstance(c, str):
         return f"CStr {g_str(c)}"
+    v = to_py(c)
     if "i" in c:
-        return f"CInt ({int(c['i'])})%Z"
+        return f"CInt ({int(c['i'])})%Z {canon_fbits(float(v))} {g_str(str(v))}"
     if "f" in c:
-        return f"CFloat {fbits(to_py(c))}"
+        return f"CFloat {canon_fbits(v)} {g_str(str(v))}"
     if "b" in c:
         return f"CBool {'true' if c['b'] else 'false'}"
     if "d" in c or "ts" in c:
-        return f"CDate ({dt_ns(to_py(c))})%Z"
+        return f"CDate ({dt_ns(v)})%Z {g_str(str(v))}"
     if "nat" in c:
         return "CNaT"
     if "o" in c:
-        return f"COther {abs(hash(str(c['o']))) % 1000}"
+        return f"COther {sum(map(ord, str(c['o']))) % 1000} {g_str(str(v))}"
     raise ValueError(c)
 
 
